@@ -27,7 +27,7 @@ ASSUMPTIONS = [
     "margins in the documented boxes; rectangles with end points of magnitude 1e-3..5",
 ]
 REQUIRED_COUNTERS = ["rectangles", "fast_vs_general", "oracle_comparisons", "additivity_checks", "margin_checks",
-                     "subset_checks", "inverse_roundtrips", "instance_interleavings", "rectangles_starting_at_0", "signed_zero_end_points", "copula_changed_on_a_used_model", "implied_density_integrals", "integer_end_points"]
+                     "subset_checks", "inverse_roundtrips", "instance_interleavings", "rectangles_starting_at_0", "signed_zero_end_points", "copula_changed_on_a_used_model", "implied_density_integrals", "integer_end_points", "index_families_in_any_order"]
 MIN_NONTRIVIAL = {"quick": 100, "thorough": 1500}
 THOROUGH_ROUNDS = 10      # the thorough tier runs the generators this many times (different seeds)
 
@@ -199,6 +199,28 @@ def run_case(case, R):
                                 f"I-margin of the copula at the tail integrals = {ws!r}", wit)
             except Exception as exc:  # noqa: BLE001
                 R.violation(f"subset-mass-raises-{d}d", f"{label}: mass({ai}, {bi}, indices={idx}) raises {type(exc).__name__}: {exc}", wit)
+    # index families in any order (the k-th interval belongs to the margin indices[k]), the full family included
+    for a, b, got in [q for q in log if all(not (x < 0 < y) for x, y in zip(q[0], q[1]))][:6]:
+        perm = [int(v) for v in rng.permutation(d)]
+        if d == 3 and rng.random() < 0.5:
+            perm = perm[:2]
+        if perm == sorted(perm) and len(perm) == d:
+            perm = perm[::-1]
+        ap, bp = [a[i] for i in perm], [b[i] for i in perm]
+        if any(ks_ == 0 for ks_ in ap + bp):
+            continue
+        try:
+            gp = float(m1.mass(ap, bp, list(perm)))
+            wp = oracle.mass(ap, bp, list(perm))
+        except Exception as exc:  # noqa: BLE001
+            R.violation(f"subset-mass-raises-{d}d", f"{label}: mass({ap}, {bp}, indices={perm}) raises {type(exc).__name__}: {exc}", wit)
+            break
+        R.hit("index_families_in_any_order")
+        scp = sum(abs(oracle.U(k2, x)) for k2, x in zip(perm + perm, ap + bp) if math.isfinite(x) and math.isfinite(oracle.U(k2, x))) + abs(wp)
+        if not (abs(gp - wp) <= 1e-9 * scp + 1e-7 * abs(wp) + 100 * oracle.max_err + floor):
+            R.violation(f"subset-mass-not-I-margin-{d}d-indices-out-of-order" + ("-full-family" if len(perm) == d else ""), f"{label}: mass({ap}, {bp}, indices={perm}) = {gp!r}, "
+                        f"I-margin of the copula at the tail integrals of the margins {perm} = {wp!r}", wit)
+            break
     # fresh instance, same queries in reversed order: results must not depend on the history of an instance
     m3 = W.build_copula_model(cm)
     R.hit("instance_interleavings")
